@@ -469,6 +469,92 @@ def gather_cases(run: lib.Run) -> None:
                         return
 
 
+POL_REL = {"algorithm": "deny-overrides", "rules": [
+    {"id": "viewers", "effect": "permit", "actions": ["read"], "resource": {"type": "doc"}, "condition": {"rel": "viewer"}}]}
+
+
+def overlap_cases(run: lib.Run) -> None:
+    """two evaluations of DIFFERENT requests overlapping on one cached engine: the first is held inside its decision (its relationship
+    lookup does not answer) while the second runs to completion; then the first is released.  Both answers, and the answers to the same
+    two requests afterwards (served from the cache), are those of an uncached engine.  Once on one event loop (async checker), once
+    with two threads (sync checker)."""
+    import asyncio
+    import threading
+
+    def fields(d):
+        return {f: proto.canon(getattr(d, f)) for f in FIELDS}
+
+    def reqs():
+        return [real.make_request(req(sid=s_)) for s_ in ("slow", "fast")]
+
+    for slow_allowed in (True, False):
+        answers = {"user:slow": slow_allowed, "user:fast": not slow_allowed}
+
+        class Plain:
+            def check(self, subject, relation, resource, *, context=None):
+                return answers[subject]
+        want = [fields(Guard(copy.deepcopy(POL_REL), relationship_checker=Plain()).evaluate_sync(*q)) for q in reqs()]
+
+        async def on_loop():
+            gate, entered = asyncio.Event(), asyncio.Event()
+
+            class Rel:
+                async def check(self, subject, relation, resource, *, context=None):
+                    if subject == "user:slow" and not gate.is_set():
+                        entered.set()
+                        await gate.wait()
+                    return answers[subject]
+            g = Guard(copy.deepcopy(POL_REL), cache=DefaultInMemoryCache(), cache_ttl=300, relationship_checker=Rel())
+            qa, qb = reqs()
+            ta = asyncio.ensure_future(g.evaluate_async(*qa))
+            await asyncio.wait_for(entered.wait(), 5)
+            db = await asyncio.wait_for(g.evaluate_async(*qb), 5)
+            gate.set()
+            da = await asyncio.wait_for(ta, 5)
+            later = [await g.evaluate_async(*q) for q in reqs()]
+            return [fields(da), fields(db)], [fields(d) for d in later]
+
+        def on_threads():
+            gate, entered = threading.Event(), threading.Event()
+
+            class Rel:
+                def check(self, subject, relation, resource, *, context=None):
+                    if subject == "user:slow" and not gate.is_set():
+                        entered.set()
+                        gate.wait(5)
+                    return answers[subject]
+            g = Guard(copy.deepcopy(POL_REL), cache=DefaultInMemoryCache(), cache_ttl=300, relationship_checker=Rel())
+            qa, qb = reqs()
+            box: dict = {}
+            t = threading.Thread(target=lambda: box.__setitem__("a", g.evaluate_sync(*qa)), daemon=True)
+            t.start()
+            if not entered.wait(5):
+                raise TimeoutError("first evaluation never reached its relationship lookup")
+            db = g.evaluate_sync(*qb)
+            gate.set()
+            t.join(5)
+            if "a" not in box:
+                raise TimeoutError("first evaluation did not finish")
+            later = [g.evaluate_sync(*q) for q in reqs()]
+            return [fields(box["a"]), fields(db)], [fields(d) for d in later]
+
+        for mode, fn in (("one event loop", lambda: asyncio.run(on_loop())), ("two threads", on_threads)):
+            run.count("overlap:" + mode)
+            run.case(["overlap", mode, slow_allowed], True)
+            try:
+                during, later = fn()
+            except Exception as e:  # noqa: BLE001
+                run.spec_failures.append({"part": "overlapping evaluations", "mode": mode, "observed": f"{type(e).__name__}: {e}",
+                                          "spec": "two overlapping evaluations on one cached engine did not complete"})
+                continue
+            for phase, got in (("while overlapping", during), ("afterwards, from the cache", later)):
+                if got != want:
+                    run.spec_failures.append({"part": "overlapping evaluations", "mode": mode, "phase": phase, "policy": POL_REL,
+                                              "held_request_allowed": slow_allowed, "cached": got, "uncached": want,
+                                              "spec": "a cached engine returned a decision different from the uncached engine holding the same policy"})
+                    break
+
+
 def _stable_hash(*xs) -> int:
     """deterministic across processes (the builtin hash of strings is salted per process)"""
     import zlib
@@ -541,7 +627,8 @@ def check(run: lib.Run, audit: dict) -> int:
                 "clear_cache; clock +3/+10) × {LRU maxsize 0,1,2,2048 × ttl None,0,5; dict cache; copying cache} × second engine lax/strict; random "
                 "histories of length 5–60 over a 26-request near-duplicate pool; key probe: 3 policies × lax/strict × the pool; protocol shape; 13 twin "
                 "document pairs (ids ''/absent, 1/'1'/True, dropped obligations, rule order, algorithm, documents json.dumps refuses) published "
-                "P,P',P,P' on one cached engine × the pool × 3 caches; the pool in flight at once (asyncio.gather, yielding role resolver). "
+                "P,P',P,P' on one cached engine × the pool × 3 caches; the pool in flight at once (asyncio.gather, yielding role resolver); two "
+                "different requests overlapping on one cached engine (first held in its relationship lookup; one loop / two threads), then again. "
                 "non-trivial = a history with ≥2 evaluations")
     run.exhaustive = True
     run.rule += ("; serialiser tie (model Rbacx.canonJson vs Guard._normalize_env_for_cache): the 26-request pool × lax/strict, random requests towards "
@@ -562,6 +649,7 @@ def check(run: lib.Run, audit: dict) -> int:
     run_cases(run)
     twin_cases(run)
     gather_cases(run)
+    overlap_cases(run)
     violations = []
     if run.disagreements and not run.spec_failures:
         check_canon_model(run, real_keys, scale=5)  # correspondence broke: widen the search for two envs sharing a real key
@@ -586,5 +674,12 @@ def replay(run: lib.Run, audit: dict, path: str) -> int:
     if c.get("part") == "history":
         hist = [tuple(o) for o in c["history"]]
         print("now:", run_history(hist, c["maxsize"], c["ttl"], c["cache"], False), run_history(hist, c["maxsize"], c["ttl"], c["cache"], True))
+    if c.get("part") in ("overlapping evaluations", "twin-policies", "concurrent-evaluations"):
+        before = len(run.spec_failures)
+        {"overlapping evaluations": overlap_cases, "twin-policies": twin_cases, "concurrent-evaluations": gather_cases}[c["part"]](run)
+        now = run.spec_failures[before:]
+        print("now:", json.dumps(now[:1], default=str)[:1500] if now else "no difference between the cached and the uncached engine")
+        print("recorded:", json.dumps(c, default=str)[:1500])
+        return 1 if now else 0
     print("recorded:", json.dumps(c, default=str)[:1500])
     return 0
